@@ -1,0 +1,62 @@
+//go:build verif
+
+package rosmar
+
+import (
+	"sync/atomic"
+)
+
+// Verification hooks. Compiled only with `-tags verif`; see verif_off.go for the stub.
+
+var verifHandler atomic.Value // of func(point string)
+
+// verifPoint calls the installed point handler, if any.
+func verifPoint(point string) {
+	if h, ok := verifHandler.Load().(func(string)); ok && h != nil {
+		h(point)
+	}
+}
+
+// VerifSetPointHandler installs (or, with nil, removes) the function called at every verifPoint.
+func VerifSetPointHandler(h func(point string)) {
+	if h == nil {
+		h = func(string) {}
+	}
+	verifHandler.Store(h)
+}
+
+type verifClock struct{ fn func() uint64 }
+
+func (c *verifClock) getTime() uint64 { return c.fn() }
+
+// VerifNewHLC creates a HybridLogicalClock that reads physical time from `clock`.
+func VerifNewHLC(lastTime Timestamp, clock func() uint64) *HybridLogicalClock {
+	c := NewHybridLogicalClock(lastTime)
+	c.clock = &verifClock{fn: clock}
+	return c
+}
+
+// VerifSetClock replaces the physical clock of the process-global HLC (nil restores the system clock).
+func VerifSetClock(clock func() uint64) {
+	hlc.mutex.Lock()
+	defer hlc.mutex.Unlock()
+	if clock == nil {
+		hlc.clock = &systemClock{}
+	} else {
+		hlc.clock = &verifClock{fn: clock}
+	}
+}
+
+// VerifRegistryCounts returns a copy of the bucket registry's reference counts, and the registered names.
+func VerifRegistryCounts() (counts map[string]uint, names []string) {
+	cluster.lock.Lock()
+	defer cluster.lock.Unlock()
+	counts = make(map[string]uint, len(cluster.bucketCount))
+	for k, v := range cluster.bucketCount {
+		counts[k] = v
+	}
+	for k := range cluster.buckets {
+		names = append(names, k)
+	}
+	return
+}
